@@ -320,6 +320,15 @@ theorem loop_lengths {P : Params} (O : Oracles) (h : LoopHyp P) (n : Nat) :
       omega
     · rw [iter_stop P O _ hgo]; omega
 
+/-- **(e')** `n_oracle_calls_ <= 9 * (last_iter_ + 1) <= 9 * max_iter` (one call of the loop body, at most four in each of
+    the two `eval_gap` calls), and `len(predictors_) <= n_oracle_calls_` — for any oracle, no assumption at all. -/
+theorem loop_oracle_calls (P : Params) (O : Oracles) :
+    (run P O).calls ≤ 9 * (run P O).t ∧ (run P O).hs.length ≤ (run P O).calls := by
+  have h := calls_runN P O P.maxIter
+  have hm : EGGen.muls.length = 4 := by simp [EGGen.muls]
+  rw [hm] at h
+  exact h
+
 /-- **Early stop, for the modelled loop itself**: if the run ends with fewer than `max_iter` iterations, the
     `break` was taken, more than `_MIN_ITER` iterations ran, and the gap of the RETURNED iterate (`best_gap_`) is
     strictly below `nu`. -/
